@@ -20,6 +20,7 @@ Context {C V : Type} (o : kops C V).
 Variable A : V -> V.
 Variable rfix : bool.   (* repaired stopping test (flag arnoldi_reltol_first_step gone): the reference is ||A q_0|| = ||H[:,0]|| *)
 Variable cfix : bool.   (* repaired normalisation (flag arnoldi_clip_garbage gone): a remainder of norm <= tol/2 gives a zero column *)
+Variable afix : bool.   (* relative normalisation threshold (flag arnoldi_absolute_clip gone): tol/2 * ||A q_0|| instead of the absolute tol/2 *)
 
 (* H is kept as the list of its columns, each of length max_iters+1 *)
 Record ast := mk_ast { aQ : list V; aH : list (list C); anorm : C }.
@@ -37,16 +38,24 @@ Definition two : C := o.(cadd) o.(c1) o.(c1).
 (* np.clip(x, a_min=lo) *)
 Definition clip_min (x lo : C) : C := if o.(cgtb) lo x then lo else x.
 
+(* the threshold below which a remainder counts as a breakdown.  Absolute tol/2 (flag arnoldi_absolute_clip), or, repaired,
+   tol/2 * norm(H[:, 0]) = tol/2 * ||A q_0|| - the reference of the stopping test - taken from H AFTER column idx has been
+   written (so that at idx = 0 it is the column just produced) *)
+Definition athr (tol : C) (H : list (list C)) : C :=
+  if afix then o.(cmul) (o.(cdiv) tol two) (o.(chyp) (Hent H 0 0) (Hent H 1 0)) else o.(cdiv) tol two.
+
 Definition abody (m : nat) (tol : C) (idx : nat) (s : ast) : ast :=
   let new0 := A (col o (aQ s) idx) in
   let r := mgs (firstn (idx + 1) (aQ s)) 0 new0 (repeat o.(c0) (m + 1)) in
   let nr := o.(vnrm) (fst r) in
-  (* pinned:   new_vec /= clip(norm, a_min=tol/2)
-     repaired: new_vec = where(norm > tol/2, new_vec / clip(norm, a_min=tol/2), zeros_like(new_vec)) *)
-  let new2 := if cfix && negb (o.(cgtb) nr (o.(cdiv) tol two)) then o.(vzero)
-              else o.(vdiv) (fst r) (clip_min nr (o.(cdiv) tol two)) in
   let h2 := upd (snd r) (idx + 1) nr in
-  mk_ast (upd (aQ s) (idx + 1) new2) (upd (aH s) idx h2) nr.
+  let H' := upd (aH s) idx h2 in
+  let th := athr tol H' in
+  (* pinned:   new_vec /= clip(norm, a_min=th)
+     repaired: new_vec = where(norm > th, new_vec / clip(norm, a_min=th), zeros_like(new_vec)) *)
+  let new2 := if cfix && negb (o.(cgtb) nr th) then o.(vzero)
+              else o.(vdiv) (fst r) (clip_min nr th) in
+  mk_ast (upd (aQ s) (idx + 1) new2) H' nr.
 
 (* the scale the remainder norms are compared with.  Pinned code: H[1,0] itself, so that at idx = 1 H[1,0] is compared with tol*H[1,0].
    Repaired code: norm(H[:, 0]) = sqrt(|H[0,0]|^2 + |H[1,0]|^2) = ||A q_0||, the size of the first Krylov vector *)
